@@ -143,6 +143,7 @@ def sat(op, vals):
 
 def atom_value(case, col, a):
     if col == "reward": return float(a * YSCALE)
+    if case.enc == "mixed" and col not in IDCOLS + ("index", "full_name") and a not in (0, 1, 2, 3): return "absent%d" % a       # a value no row carries
     return case.colval(col, a)
 
 
